@@ -42,7 +42,7 @@ var tiers = map[string]map[string]tierCfg{
 	"C12": {"quick": {150000, 25, 20, 0, 1500}, "thorough": {4000000, 900, 30, 0, 4000}},
 	"C02": {"quick": {60000, 30, 20, 6, 600}, "thorough": {15000000, 1200, 30, 180, 1500}},
 	"C16": {"quick": {24000, 30, 20, 8, 600}, "thorough": {3000000, 1200, 30, 300, 1500}},
-	"C14": {"quick": {20000, 25, 20, 6, 600}, "thorough": {1000000, 900, 30, 240, 1500}},
+	"C14": {"quick": {12000, 25, 20, 6, 600}, "thorough": {1000000, 900, 30, 240, 1500}},
 	"C09": {"quick": {200000, 25, 20, 0, 1000}, "thorough": {20000000, 900, 30, 0, 3000}},
 	"C01": {"quick": {80000, 25, 20, 0, 1000}, "thorough": {20000000, 900, 30, 0, 3000}},
 }
